@@ -135,7 +135,7 @@ func expectFor(e ctxExpect, shape, tok string, ipLast int) ctxObs {
 		"lookup": "/p/", "lookupclone": "/p/", "clonewith": "/p/", "clone": "/p/",
 		"tsrclone": "/ic/", "hostdirect": "/hd/", "hosttsr": "/hi/", "statichost": "/hs/", "hijack": "/hj/", "txnlookup": "/p/",
 		"tsrclonewith": "/iw/", "tsrlookup": "/i/", "wrapclone": "/wc/", "directcopy": "/p/", "noroutecopy": "/nope/",
-		"swapped": "/sw/", "wrapf": "/wf/"}[shape] + tok
+		"swapped": "/sw/", "wrapf": "/wf/", "noquery": "/nq/", "hostnomethod": "/two/"}[shape] + tok
 	switch shape { // routes without a parameter: the path carries no token
 	case "staticdirect":
 		o.Path = "/sd"
@@ -171,7 +171,15 @@ func expectFor(e ctxExpect, shape, tok string, ipLast int) ctxObs {
 			o.Route = "/sw/{x}"
 		case "wrapf":
 			o.Route = "/wf/{x}"
+		case "noquery":
+			o.Route = "/nq/{x}"
 		}
+	}
+	if e.Query == "-" {
+		o.Query = ""
+	}
+	if shape == "hostnomethod" {
+		o.Host = tok + ".foo.example"
 	}
 	return o
 }
@@ -367,6 +375,14 @@ func (cr *ctxReplayer) runSeq(v ctxVec, run string) {
 		}
 		dirty(c, cur)
 	})
+	// a request without a query string: the handler writes into the values QueryParams gave it; nobody else sees them
+	rt.MustHandle("GET", "/nq/{x}", func(c fox.Context) {
+		o := observeCtx(c)
+		obsNow = &o
+		c.QueryParams().Set("q", cur)
+		c.QueryParams().Add("session", cur)
+		dirty(c, cur)
+	})
 	// an http.HandlerFunc behind WrapF: the request it gets carries the parameters of the current request, the writer is the
 	// context's; the parameter list is a copy of its own (re-read after later requests)
 	rt.MustHandle("GET", "/wf/{x}", func(c fox.Context) {
@@ -414,11 +430,15 @@ func (cr *ctxReplayer) runSeq(v ctxVec, run string) {
 	// first): they are registered only for sequences that use them, so that the other sequences exercise the path-only mode
 	needsHost := false
 	for _, st := range v.Steps {
-		if st.Shape == "hostdirect" || st.Shape == "hosttsr" || st.Shape == "statichost" {
+		if st.Shape == "hostdirect" || st.Shape == "hosttsr" || st.Shape == "statichost" || st.Shape == "hostnomethod" {
 			needsHost = true
 		}
 	}
 	if needsHost {
+		// POST only, a static label and a parameter label competing below a matched parameter label: a GET is answered 405,
+		// and the Allow header is computed by walking these (first the static label, then back to the parameter)
+		rt.MustHandle("POST", "{a}.foo.example/one/{x}", h)
+		rt.MustHandle("POST", "{a}.{b}.example/two/{x}", h)
 		rt.MustHandle("GET", "{h}.example/hd/{x}", h)
 		rt.MustHandle("GET", "{h}.example/hi/{x}/", h, fox.WithIgnoreTrailingSlash(true))
 		// a route below a static hostname: its handler routes another request by hand, through the hostname tree, while
@@ -500,6 +520,10 @@ func (cr *ctxReplayer) runSeq(v ctxVec, run string) {
 			path = "/tsl/" + cur
 		case "wrapclone":
 			path = "/wc/" + cur
+		case "noquery":
+			path = "/nq/" + cur
+		case "hostnomethod":
+			path = "/two/" + cur
 		case "swapped":
 			path = "/sw/" + cur
 		case "wrapf":
@@ -513,7 +537,14 @@ func (cr *ctxReplayer) runSeq(v ctxVec, run string) {
 		if st.Shape == "statichost" {
 			host = "static.example"
 		}
-		req, _ := newRequest(method, host, path, "q="+cur)
+		query := "q=" + cur
+		if st.Shape == "noquery" {
+			query = ""
+		}
+		if st.Shape == "hostnomethod" {
+			host = cur + ".foo.example"
+		}
+		req, _ := newRequest(method, host, path, query)
 		req.Header.Set("X-Req", cur)
 		if st.Shape == "directcopy" || st.Shape == "noroutecopy" {
 			req.Header.Set("X-Copy", "1")
@@ -586,7 +617,7 @@ func (cr *ctxReplayer) runSeq(v ctxVec, run string) {
 }
 
 func checkC12(r *Run) {
-	maxLen := 3 // 25 shapes x with / without a tree replacement: about 127 000 sequences; length 4 would be 6 million
+	maxLen := 3 // 27 shapes x with / without a tree replacement: about 160 000 sequences; length 4 would be 8.5 million
 	gen := fmt.Sprintf("---- MODULE Gen_Context ----\nGenMaxLen == %d\n====\n", maxLen)
 	model := r.runTLC(tlcOpts{Module: "MC_ContextModel", Gen: map[string]string{"Gen_Context.tla": gen}, Timeout: 5 * time.Minute})
 	model.mustClean("MC_ContextModel")
